@@ -69,6 +69,12 @@ def timeout_case(case):
       if kind == 'killable':
         s.sleep(d)
         return None
+      if kind == 'rot-recovers':
+        # repeat_on_timeout: the first invocation never returns (it is abandoned at its deadline), the second is quick
+        if inv == 0:
+          s.sleep(1e7)
+        test.measurements.pm = 5
+        return None
       if kind == 'repeats':
         # every invocation stays inside its own timeout; together they take longer than one timeout
         s.sleep(d)
@@ -101,7 +107,7 @@ def timeout_case(case):
     opts = {}
     if case['t'] is not None:
       opts['timeout_s'] = case['t']
-    if case.get('rot'):
+    if case.get('rot') or kind == 'rot-recovers':
       opts['repeat_on_timeout'] = True
       opts['repeat_limit'] = 2
     put = htf.PhaseOptions(**opts)(htf.measures(htf.Measurement('pm').in_range(0, 10))(htf.plug(plug=P)(body)))
@@ -177,6 +183,17 @@ def check_timeout(case):
   puts = [p for p in res['recs'] if p[0] == 'put']
   n_inv = len([e for e in log if e[0] == 'put'])
   invs = 2 if case.get('rot') else 1
+  if case['kind'] == 'rot-recovers':
+    # "a phase still running when its timeout expires is abandoned: the run reports TIMEOUT" - also when the phase is then
+    # repeated and the repeat succeeds (the abandoned invocation's record is ERROR/timeout, and C01 allows no PASS with it)
+    if not any(p[2] == 'TIMEOUT' for p in puts):
+      r.bad('C12/timeout/not-recorded', '%s t=%s: first invocation ran into its timeout but no record says so: %r' % (tag, case['t'], puts))
+    elif res['outcome'] == 'PASS':
+      r.bad('C12/timeout/repeated-away/run-reports-PASS', '%s t=%s: the first invocation timed out (record %r) and was repeated; the run reports PASS' % (
+          tag, case['t'], puts[0]))
+    if not any(e[0] == 'plug-td' for e in log):
+      r.bad('C12/timeout/plug-teardown-skipped', '%s: log %r' % (tag, log))
+    return r, s
   if d < t - EPS / 2:
     if res['outcome'] == 'TIMEOUT' or any(p[2] == 'TIMEOUT' for p in puts):
       r.bad('C12/timeout/false-timeout', '%s t=%s d=%s: body returned before its deadline but outcome %s records %r' % (tag, case['t'], case['d'], res['outcome'], puts))
@@ -220,6 +237,8 @@ def timeout_grid():
             if d != 'inf' and d < 0:
               continue
             yield {'t': t, 'd': d if d == 'inf' else round(d, 4), 'kind': kind, 'pos': pos, 'rot': rot}
+    for pos in ('alone', 'main', 'setup', 'teardown'):
+      yield {'t': t, 'd': 'inf', 'kind': 'rot-recovers', 'pos': pos, 'rot': False}
     for frac in (0.3, 0.4, 0.6, 0.9):
       for pos in ('alone', 'main', 'setup', 'teardown'):
         yield {'t': t, 'd': round(tt * frac, 4), 'kind': 'repeats', 'pos': pos, 'rot': False}
